@@ -15,10 +15,10 @@ is put into one of the three classes.
 -/
 namespace XL
 
-def modelledFunctions : List String := ["ABS", "ACOS", "ACOSH", "AND", "ARABIC", "ASIN", "ASINH", "ATAN", "ATAN2", "ATANH", "AVERAGE", "AVERAGEIF", "BIN2DEC", "BIN2HEX", "BIN2OCT", "CEILING", "CONCAT", "CONCATENATE", "COS", "COSH", "COUNT", "COUNTA", "COUNTBLANK", "COUNTIF", "DATE", "DAY", "DEC2BIN", "DEC2HEX", "DEC2OCT", "EVEN", "EXP", "FIND", "FLOOR", "HEX2BIN", "HEX2DEC", "HEX2OCT", "HLOOKUP", "IF", "IFERROR", "IFNA", "IFS", "INDEX", "INT", "ISBLANK", "ISERR", "ISERROR", "ISEVEN", "ISLOGICAL", "ISNA", "ISNONTEXT", "ISNUMBER", "ISODD", "ISTEXT", "LARGE", "LEFT", "LEN", "LN", "LOG", "LOG10", "LOOKUP", "LOWER", "MATCH", "MAX", "MEDIAN", "MID", "MIN", "MOD", "MONTH", "NOT", "OCT2BIN", "OCT2DEC", "OCT2HEX", "ODD", "OR", "POWER", "PRODUCT", "RANDBETWEEN", "REPLACE", "RIGHT", "ROMAN", "ROUND", "ROUNDDOWN", "ROUNDUP", "SEARCH", "SIGN", "SIN", "SINH", "SMALL", "SQRT", "STDEV", "STDEV.P", "STDEV.S", "STDEVP", "SUBSTITUTE", "SUM", "SUMIF", "SUMSQ", "SWITCH", "TAN", "TANH", "TEXTJOIN", "TRIM", "TRUNC", "UPPER", "VALUE", "VAR", "VAR.P", "VAR.S", "VARP", "VLOOKUP", "WEEKDAY", "XOR", "YEAR", "_XLFN.ARABIC", "_XLFN.CONCAT", "_XLFN.CONCATENATE", "_XLFN.IFNA", "_XLFN.IFS", "_XLFN.STDEV.P", "_XLFN.STDEV.S", "_XLFN.SWITCH", "_XLFN.TEXTJOIN", "_XLFN.VAR.P", "_XLFN.VAR.S", "_XLFN.XOR"]
+def modelledFunctions : List String := ["ABS", "ACOS", "ACOSH", "AND", "ARABIC", "ASIN", "ASINH", "ATAN", "ATAN2", "ATANH", "AVERAGE", "AVERAGEIF", "BIN2DEC", "BIN2HEX", "BIN2OCT", "CEILING", "CONCAT", "CONCATENATE", "COS", "COSH", "COUNT", "COUNTA", "COUNTBLANK", "COUNTIF", "DATE", "DAY", "DEC2BIN", "DEC2HEX", "DEC2OCT", "EVEN", "EXP", "FIND", "FLOOR", "HEX2BIN", "HEX2DEC", "HEX2OCT", "HLOOKUP", "IF", "IFERROR", "IFNA", "IFS", "INDEX", "INT", "ISBLANK", "ISERR", "ISERROR", "ISEVEN", "ISLOGICAL", "ISNA", "ISNONTEXT", "ISNUMBER", "ISODD", "ISTEXT", "LARGE", "LEFT", "LEN", "LN", "LOG", "LOG10", "LOOKUP", "LOWER", "MATCH", "MAX", "MEDIAN", "MID", "MIN", "MOD", "MONTH", "NOT", "OCT2BIN", "OCT2DEC", "OCT2HEX", "ODD", "OR", "POWER", "PRODUCT", "RANDBETWEEN", "REPLACE", "RIGHT", "ROMAN", "ROUND", "ROUNDDOWN", "ROUNDUP", "SEARCH", "SIGN", "SIN", "SINH", "SMALL", "SQRT", "STDEV", "STDEV.P", "STDEV.S", "STDEVP", "SUBSTITUTE", "SUM", "SUMIF", "SUMPRODUCT", "SUMSQ", "SWITCH", "TAN", "TANH", "TEXTJOIN", "TRIM", "TRUNC", "UPPER", "VALUE", "VAR", "VAR.P", "VAR.S", "VARP", "VLOOKUP", "WEEKDAY", "XOR", "YEAR", "_XLFN.ARABIC", "_XLFN.CONCAT", "_XLFN.CONCATENATE", "_XLFN.IFNA", "_XLFN.IFS", "_XLFN.STDEV.P", "_XLFN.STDEV.S", "_XLFN.SWITCH", "_XLFN.TEXTJOIN", "_XLFN.VAR.P", "_XLFN.VAR.S", "_XLFN.XOR"]
 
 def structuralFunctions : List String := ["ARRAY", "ARRAYROW", "COLUMN", "DUMMYFUNCTION", "FALSE", "FILTER", "NA", "NOW", "PI", "RAND", "ROW", "SINGLE", "T", "TODAY", "TRANSPOSE", "TRUE", "_XLFN.SINGLE", "_XLFN._XLWS.FILTER", "__XLUDF.DUMMYFUNCTION"]
 
-def sweptFunctions : List String := ["ACOT", "ACOTH", "ADDRESS", "AVERAGEA", "CEILING.MATH", "CEILING.PRECISE", "CHAR", "CODE", "CORREL", "COT", "COTH", "CSC", "CSCH", "CUMIPMT", "DATEDIF", "DATEVALUE", "DECIMAL", "DEGREES", "EDATE", "FACT", "FACTDOUBLE", "FLOOR.MATH", "FLOOR.PRECISE", "FORECAST", "FORECAST.LINEAR", "FV", "GCD", "HOUR", "IPMT", "IRR", "ISO.CEILING", "ISOWEEKNUM", "LCM", "MAXA", "MDETERM", "MINA", "MINUTE", "MINVERSE", "MMULT", "MROUND", "MUNIT", "NORM.DIST", "NORM.INV", "NORM.S.DIST", "NORM.S.INV", "NORMDIST", "NORMINV", "NORMSDIST", "NORMSINV", "NPER", "NPV", "PERCENTILE", "PERCENTILE.EXC", "PERCENTILE.INC", "PMT", "PPMT", "PV", "QUARTILE", "QUARTILE.EXC", "QUARTILE.INC", "RADIANS", "RATE", "SEC", "SECH", "SECOND", "SLOPE", "SQRTPI", "STDEVA", "STDEVPA", "SUMPRODUCT", "TEXT", "TIME", "TIMEVALUE", "VARA", "VARPA", "WEEKNUM", "XIRR", "XNPV", "YEARFRAC", "_XLFN.ACOT", "_XLFN.ACOTH", "_XLFN.CEILING.MATH", "_XLFN.CEILING.PRECISE", "_XLFN.COT", "_XLFN.COTH", "_XLFN.CSC", "_XLFN.CSCH", "_XLFN.DECIMAL", "_XLFN.FLOOR.MATH", "_XLFN.FLOOR.PRECISE", "_XLFN.FORECAST.LINEAR", "_XLFN.ISOWEEKNUM", "_XLFN.MUNIT", "_XLFN.NORM.DIST", "_XLFN.NORM.INV", "_XLFN.NORM.S.DIST", "_XLFN.NORM.S.INV", "_XLFN.PERCENTILE.EXC", "_XLFN.PERCENTILE.INC", "_XLFN.QUARTILE.EXC", "_XLFN.QUARTILE.INC", "_XLFN.SEC", "_XLFN.SECH"]
+def sweptFunctions : List String := ["ACOT", "ACOTH", "ADDRESS", "AVERAGEA", "CEILING.MATH", "CEILING.PRECISE", "CHAR", "CODE", "CORREL", "COT", "COTH", "CSC", "CSCH", "CUMIPMT", "DATEDIF", "DATEVALUE", "DECIMAL", "DEGREES", "EDATE", "FACT", "FACTDOUBLE", "FLOOR.MATH", "FLOOR.PRECISE", "FORECAST", "FORECAST.LINEAR", "FV", "GCD", "HOUR", "IPMT", "IRR", "ISO.CEILING", "ISOWEEKNUM", "LCM", "MAXA", "MDETERM", "MINA", "MINUTE", "MINVERSE", "MMULT", "MROUND", "MUNIT", "NORM.DIST", "NORM.INV", "NORM.S.DIST", "NORM.S.INV", "NORMDIST", "NORMINV", "NORMSDIST", "NORMSINV", "NPER", "NPV", "PERCENTILE", "PERCENTILE.EXC", "PERCENTILE.INC", "PMT", "PPMT", "PV", "QUARTILE", "QUARTILE.EXC", "QUARTILE.INC", "RADIANS", "RATE", "SEC", "SECH", "SECOND", "SLOPE", "SQRTPI", "STDEVA", "STDEVPA", "TEXT", "TIME", "TIMEVALUE", "VARA", "VARPA", "WEEKNUM", "XIRR", "XNPV", "YEARFRAC", "_XLFN.ACOT", "_XLFN.ACOTH", "_XLFN.CEILING.MATH", "_XLFN.CEILING.PRECISE", "_XLFN.COT", "_XLFN.COTH", "_XLFN.CSC", "_XLFN.CSCH", "_XLFN.DECIMAL", "_XLFN.FLOOR.MATH", "_XLFN.FLOOR.PRECISE", "_XLFN.FORECAST.LINEAR", "_XLFN.ISOWEEKNUM", "_XLFN.MUNIT", "_XLFN.NORM.DIST", "_XLFN.NORM.INV", "_XLFN.NORM.S.DIST", "_XLFN.NORM.S.INV", "_XLFN.PERCENTILE.EXC", "_XLFN.PERCENTILE.INC", "_XLFN.QUARTILE.EXC", "_XLFN.QUARTILE.INC", "_XLFN.SEC", "_XLFN.SECH"]
 
 end XL
